@@ -55,7 +55,11 @@ def run(ctx, rep):
         rep.ob("R09.1", "vinegar.dump: the version text is sent only when include_local_version is set", ok,
                "dominated by `if include_local_version`" if ok else "the version string is disclosed unconditionally", ctx.loc(n))
     # complementary branches bind constants
-    for var, key in (("tbtext", "include_local_traceback"),):
+    tbvar = None
+    for n in tb_nodes:
+        if isinstance(n.ast, ast.Assign) and isinstance(n.ast.targets[0], ast.Name):
+            tbvar = n.ast.targets[0].id
+    for var, key in ((tbvar, "include_local_traceback"),):
         defs = [n for n in g.live if n.kind == "stmt" and isinstance(n.ast, ast.Assign) and
                 any(isinstance(t, ast.Name) and t.id == var for t in n.ast.targets)]
         for d in defs:
@@ -155,8 +159,17 @@ def run(ctx, rep):
     rep.floor("R09.2", "full exception records returned by vinegar.dump", len(rets), 1)
     for r in rets:
         e = r.ast.value.elts
-        ok = A.src(e[0]) == "(%s.__module__, %s.__name__)" % (prm[0], prm[0]) and A.src(e[1]) == "tuple(args)" and \
-            A.src(e[2]) == "tuple(attrs)" and isinstance(e[3], ast.Name)
+        lists = set()
+        for an in appends:
+            for c in A.calls(an.ast):
+                if isinstance(c.func, ast.Attribute) and c.func.attr == "append" and isinstance(c.func.value, ast.Name):
+                    lists.add(c.func.value.id)
+
+        def tuple_of_list(x):
+            return isinstance(x, ast.Call) and A.call_name(x) == "tuple" and len(x.args) == 1 and \
+                isinstance(x.args[0], ast.Name) and x.args[0].id in lists
+        ok = A.src(e[0]) == "(%s.__module__, %s.__name__)" % (prm[0], prm[0]) and tuple_of_list(e[1]) and \
+            tuple_of_list(e[2]) and A.src(e[1]) != A.src(e[2]) and isinstance(e[3], ast.Name) and e[3].id == tbvar
         rep.ob("R09.2", "vinegar.dump: record layout ((module, name), args, attrs, traceback text)", ok,
                "`%s`" % A.src(r.ast.value) if ok else "the record is `%s`" % A.src(r.ast.value), ctx.loc(r))
     # attribute names: public, from dir(val)
@@ -215,18 +228,30 @@ def run(ctx, rep):
                    "a class from any loaded module is looked up without the instantiate_custom_exceptions switch", ctx.loc(n))
         else:
             target = A.src([cc for cc in A.calls(n.ast.value) if A.call_name(cc) == "getattr"][0].args[0])
+            mcn = None
+            for nn in A.walk(fl.node):
+                if isinstance(nn, ast.Assign) and isinstance(nn.targets[0], ast.Tuple) and len(nn.targets[0].elts) == 4 and \
+                        isinstance(nn.targets[0].elts[0], ast.Tuple) and len(nn.targets[0].elts[0].elts) == 2:
+                    mcn = A.src(nn.targets[0].elts[0].elts[0])
             okb = target == "exceptions_module" and any(
-                k.replace(" ", "") in ("modname==exceptions_module.__name__",) and v is True for k, v in c.items())
+                k.replace(" ", "") in ("%s==exceptions_module.__name__" % mcn, "exceptions_module.__name__==%s" % mcn)
+                and v is True for k, v in c.items())
             rep.ob("R09.4", "vinegar.load: with custom exceptions off only the builtins module is consulted, and only for its own name",
                    okb, "getattr(exceptions_module, clsname) under `modname == exceptions_module.__name__`" if okb else
                    "the default class lookup `%s` is not restricted to the builtins module named by the payload" % src, ctx.loc(n))
     gen = [c for c in A.find_calls(fl.node, "type") if len(c.args) == 3]
     okn = False
+    mc = None
     for n in A.walk(fl.node):
-        if isinstance(n, ast.Assign) and A.src(n.targets[0]) == "fullname" and isinstance(n.value, ast.BinOp):
-            okn = A.src(n.value) == "'%s.%s' % (modname, clsname)"
+        if isinstance(n, ast.Assign) and isinstance(n.targets[0], ast.Tuple) and len(n.targets[0].elts) == 4 and \
+                isinstance(n.targets[0].elts[0], ast.Tuple) and len(n.targets[0].elts[0].elts) == 2:
+            mc = [A.src(x) for x in n.targets[0].elts[0].elts]
+    for n in A.walk(fl.node):
+        if mc and isinstance(n, ast.Assign) and isinstance(n.value, ast.BinOp) and isinstance(n.value.op, ast.Mod):
+            if A.src(n.value) == "'%%s.%%s' %% (%s, %s)" % (mc[0], mc[1]):
+                okn = True
     rep.ob("R09.4", "vinegar.load: the generic stand-in is named '<module>.<class>' after the original", okn and bool(gen),
-           "fullname = '%s.%s' % (modname, clsname)" if okn else "the stand-in class is not named after the original", fl.loc,
+           "named '%s.%s' % (module name, class name) of the payload" if okn else "the stand-in class is not named after the original", fl.loc,
            kind="site")
 
     # ------------------------------------------------------------------ R09.5
